@@ -59,8 +59,16 @@ std::optional<EntityUID> RSAggregator::TransferCst(const EntityUID target, const
     if (insertWhere != std::end(output.List())) {
       output.MoveBefore(newUID, insertWhere);
     }
+    // Note: undo partial translation made by InsertCopy. All names are translated once in UpdateReferences
+    const auto& oldText = prevOutput->GetText(target);
     output.SetExpressionFor(newUID, oldCst.definition);
-    output.SetDefinitionFor(newUID, prevOutput->GetText(target).definition.Raw());
+    output.SetConventionFor(newUID, oldCst.convention);
+    output.SetDefinitionFor(newUID, oldText.definition.Raw());
+    if (output.SetTermFor(newUID, oldText.term.Text().Raw())) {
+      for (const auto& [form, formText] : oldText.term.GetAllManual()) {
+        output.SetTermFormFor(newUID, formText, form);
+      }
+    }
     insertedCsts.emplace_back(newUID);
     translation.Insert(target, newUID);
     nameSubstitutes.insert({ oldCst.alias, output.GetRS(newUID).alias });
